@@ -517,6 +517,7 @@ def vm_files_leg(o, name, files, wd, timeout=1800):
     counts = {}
     nrec = nsteps = ndrift = 0
     agreeing = []
+    drift_examples = []
     for (f, g), r in zip(ff, results):
         o.add_tlc(r)
         recs = {x["id"]: x for x in core.read_ndjson(g)}
@@ -537,13 +538,13 @@ def vm_files_leg(o, name, files, wd, timeout=1800):
                                   "vm_out": core.text_of(v.get("vmout", [])), "record_file": g, "id": v["id"],
                                   "spec_module": "NlVM.tla", "cfg": "NlVM.cfg"})
             elif v.get("drift", 0) > 0 and v["class"] != "skip":
+                # the real machine's internal state differs from this model's at some dispatch while the
+                # observable outcome agrees: model drift is reported in the evidence, it is not a violation
+                # (the frame and loop discipline that the properties do demand is NlFrames' business)
                 ndrift += 1
-                ev = rec["steps"][v["drift"] - 1] if v["drift"] <= len(rec["steps"]) else None
-                sig = sig_of(name, v, rec, text)
-                sig["rule"] = "lockstep"
-                sig["at_step"] = v["drift"]
-                o.violation(sig, {"text": text, "first_differing_event": ev, "step": v["drift"], "record_file": g,
-                                  "id": v["id"], "spec_module": "NlVM.tla", "cfg": "NlVM.cfg"})
+                if len(drift_examples) < 3:
+                    ev = rec["steps"][v["drift"] - 1] if v["drift"] <= len(rec["steps"]) else None
+                    drift_examples.append({"text": text[:200], "at_step": v["drift"], "event": ev})
             elif v["class"] == "agree":
                 agreeing.append(rec)
     tried = rejected = 0
@@ -572,7 +573,8 @@ def vm_files_leg(o, name, files, wd, timeout=1800):
                 rejected += 1
         if tried != rejected:
             raise ToolError(f"{name}: sensitivity self-test failed ({rejected}/{tried})")
-    o.legs.append({"leg": name, "records": nrec, "vm_steps": nsteps, "verdicts": counts, "lockstep_drifts": ndrift,
+    o.legs.append({"leg": name, "records": nrec, "vm_steps": nsteps, "verdicts": counts,
+                   "model_conformance": "ok" if ndrift == 0 else f"drift in {ndrift} records", "drift_examples": drift_examples,
                    "sensitivity_tried": tried, "sensitivity_rejected": rejected, "wall_s": round(time.time() - t0, 1)})
 
 
@@ -678,6 +680,11 @@ def check_C12(tier, seed):
     sem_files_leg(o, "templates-values", files, wd)
     frames_files_leg(o, "templates-discipline", files, wd)
     sem_and_frames(o, "random-calls", ["--family", "calls"], size(tier, 2400, 60000), seed)
+    # recursion to depth 16 000 (closed forms) and beyond the 16-bit stack index (must be an error)
+    wd3 = core.workdir("C12_deep")
+    df = os.path.join(wd3, "deep.ndjson")
+    core.run_nlh(["gen-deep-laws", "--out", df], timeout=1800)
+    law_files_leg(o, "deep-recursion-laws", [df], wd3)
     o.extra["rule"] = ("template set: functions of 0-4 parameters x 0-4 locals called from 8 expression contexts; direct, mutual and "
                        "doubly recursive functions to depth 200; empty bodies; functions stored, passed and returned; random call-heavy programs beyond")
     return o.finish()
@@ -1673,15 +1680,67 @@ def big_leg(o, name, lattice, nrandom, seed, timeout=2400):
                    "wall_s": round(time.time() - t0, 1)})
 
 
+def float_leg(o, name, extra, seed):
+    t0 = time.time()
+    wd = core.workdir(f"{o.prop}_{name}")
+    shards = core.NCPU
+    files = gen_files(wd, "gen-float", ["--seed", seed, "--extra", extra], shards, "fl")
+    results = run_tv_shards(files, "TV_Float.tla", "TV_Float.cfg", wd)
+    counts = {}
+    n = 0
+    good = []
+    for f, r in zip(files, results):
+        o.add_tlc(r)
+        recs = {x["id"]: x for x in core.read_ndjson(f)}
+        n += len(recs)
+        if len(r.verdicts) != len(recs):
+            raise ToolError(f"{name}: {len(r.verdicts)} verdicts for {len(recs)} records")
+        for v in r.verdicts:
+            key = v["class"] + ":" + v["rule"]
+            counts[key] = counts.get(key, 0) + 1
+            o.traces += 1
+            rec = recs[v["id"]]
+            if v["class"] == "mismatch":
+                for (op, form) in v["wrong"][:3]:
+                    ob = (rec["cmp"].get(op) or rec["ar"].get(op))[form - 1]
+                    o.violation({"leg": name, "rule": "float-operator", "op": op, "form": form, "a": rec["at"], "b": rec["bt"],
+                                 "observed": ob, "class": {"E": "Err", "X": "Panic"}.get(ob.get("c"), "Value"),
+                                 "msg": ob.get("what"), "loc": ob.get("loc")},
+                                {"a": rec["at"], "b": rec["bt"], "op": op, "form": form, "observed": ob})
+            elif len(good) < 40:
+                good.append(rec)
+    for r_ in good[:2]:
+        o.samples.append({"leg": name, "a": r_["at"], "b": r_["bt"], "lt": r_["cmp"]["<"], "div": r_["ar"]["/"]})
+    bad = []
+    for k, r_ in enumerate(good[:10]):
+        c = copy.deepcopy(r_)
+        op = ["<", "==", ">=", "!="][k % 4]
+        if c["cmp"][op][k % 3].get("c") == "B":
+            c["cmp"][op][k % 3]["v"] = not c["cmp"][op][k % 3]["v"]
+            bad.append(c)
+    tried = rej = 0
+    if bad:
+        bf = os.path.join(wd, "corrupt.ndjson")
+        core.write_ndjson(bf, bad)
+        rr = core.tlc_or_die("TV_Float.tla", "TV_Float.cfg", env={"RECS": bf}, workdir_=wd)
+        tried = len(bad)
+        rej = sum(1 for v in rr.verdicts if v["class"] == "mismatch")
+        if tried != rej:
+            raise ToolError(f"{name}: sensitivity self-test failed ({rej}/{tried})")
+    o.legs.append({"leg": name, "pairs": n, "evaluations": n * 33, "verdicts": counts, "sensitivity_tried": tried,
+                   "sensitivity_rejected": rej, "wall_s": round(time.time() - t0, 1)})
+
+
 def check_C06(tier, seed):
     o = Outcome("C06", tier, seed, "model_checking")
     o.assumptions = [
         "integer results are compared with exact limb arithmetic (spec/NlBig.tla); quotient and remainder are verified from the observed pair (a = q*b + r, |r| < |b|, sign r = sign a)",
-        "floats: comparisons and arithmetic are decided on exact dyadic operands; results that need rounding and non-finite values are DontKnow (U9) and skipped",
+        "floats: arithmetic is decided exactly on dyadic operands (NlValues) and by the IEEE rules for special values (NlFloat: NaN, infinities, signed zeros); every comparison of every pair is decided from the bit patterns (NlFloat); a finite result that needs rounding is only required to be a float",
         "the error kind for a zero divisor / overflow is not fixed by the documentation: any error kind is accepted (U8)",
     ]
     big_leg(o, "int-lattice", size(tier, "quick", "full"), size(tier, 3200, 200000), seed)
     sem_leg(o, "ops-all-types", [], 16, seed, shards=16, gen_cmd="gen-ops-sharded", sens=10)
+    float_leg(o, "float-lattice", size(tier, 10, 120), seed)
     o.extra["exhaustive"] = True
     o.extra["rule"] = ("integer pairs: complete cross product of the boundary lattice (0, +-1, +-2, +-7, +-2^k, +-(2^k+-1), range ends) "
                        "x 11 operators x 3 syntactic forms, plus seeded random pairs; other types: every operator on every pair of "
